@@ -184,6 +184,30 @@ func Disturb(kind int) {
 		}()
 		return
 	}
+	if kind == 9 {
+		// records whose caller cannot be resolved (a skip count beyond the stack) while caller info is on, in the three
+		// formats: whatever the printing of the caller group leaves behind in a pooled context meets the next record
+		func() {
+			defer func() { _ = recover() }()
+			old := slog.GetFlags()
+			defer slog.SetFlags(old)
+			slog.SetFlags(old | slog.Lcaller)
+			far := slog.New("disturb-far").SetWriter(io.Discard).SetErrorWriter(io.Discard).SetLevel(slog.AlwaysLevel).WithSkip(100)
+			far.SetWriter(io.Discard).SetErrorWriter(io.Discard)
+			for _, f := range []int{0, 1, 2, 0} {
+				switch f {
+				case 0:
+					far.SetColorMode(false)
+				case 1:
+					far.SetJSONMode(true)
+				default:
+					far.SetJSONMode(false).SetColorMode(true)
+				}
+				far.Info("caller beyond the stack", "id", 3, slog.Group("g", "a", "x y"))
+			}
+		}()
+		return
+	}
 	if kind == 7 {
 		// two garbage collections: the pools are emptied (their victim caches too), so the record under test is
 		// printed by a freshly made context - and whatever only lived in a pooled object is gone
@@ -265,6 +289,9 @@ func GenDisturb() *rapid.Generator[int] {
 		}
 		if Rare(t, "panickingValueBeforeTheRecord", 3) {
 			return 8
+		}
+		if Rare(t, "unresolvableCallerBeforeTheRecord", 3) {
+			return 9
 		}
 		return rapid.IntRange(0, 6).Draw(t, "disturbanceRecord")
 	})
